@@ -179,16 +179,107 @@ def register(lib):
                 i += 1
         return new_string(out)
 
-    @reg(r'^String::as_bytes$|^core::str::<impl str>::as_bytes$', 'str::as_bytes (same buffer viewed as bytes; ASCII content assumed by callers that index it)')
+    @reg(r'^String::as_bytes$|^core::str::<impl str>::as_bytes$', 'str::as_bytes')
     def _as_bytes(fr, name, args, ops):
         v = args[0]
+        sl = None
         if type(v) is Ptr:
             s_ = v.c[v.k]
             if type(s_) is L and s_.tag == 'String':
-                return SliceRef(s_[0], 0, len(s_[0]), False)
+                sl = SliceRef(s_[0], 0, len(s_[0]), False)
         if type(v) is SliceRef:
-            return SliceRef(v.c, v.start, v.len, False)
-        raise Unsupported('as_bytes of %r' % (v,))
+            sl = SliceRef(v.c, v.start, v.len, False)
+        if sl is None:
+            raise Unsupported('as_bytes of %r' % (v,))
+        items = sl.items()
+        if all((type(x) is int and x < 0x80) or (type(x) is Term and T.umax(x, x.w) < 0x80) for x in items):
+            return sl                      # ASCII content: the code points are the bytes (same buffer)
+        if all(type(x) is int for x in items):
+            enc = ''.join(chr(x) for x in items).encode('utf-8')
+            buf = I.mk(list(enc), 'bytes')
+            return SliceRef(buf, 0, len(buf), False)
+        raise Unsupported('as_bytes of a string with symbolic non-ASCII characters')
+
+    @reg(r'^core::str::<impl str>::starts_with::<char>$', 'str::starts_with(char)')
+    def _starts_with(fr, name, args, ops):
+        items = str_items(args[0])
+        if not items:
+            return 0
+        c0 = items[0]
+        if type(c0) not in (int, Term):
+            raise Unsupported('starts_with on a conditional piece')
+        return T.eq(32, c0, args[1])
+
+    @reg(r'^String::remove$', 'String::remove')
+    def _remove(fr, name, args, ops):
+        s_ = string_of(args[0])
+        idx = args[1]
+        buf = s_[0]
+        if type(idx) is not int:
+            raise Unsupported('String::remove at a symbolic index')
+        if idx >= len(buf):
+            return I.panic(fr, 'cannot remove a char from the end of a string')
+        ch = buf[idx]
+        I.structural(buf)
+        del buf[idx]
+        return ch
+
+    @reg(r'^from_utf8$|^std::str::from_utf8$|^core::str::from_utf8$|^core::str::converts::from_utf8$', 'str::from_utf8')
+    def _from_utf8(fr, name, args, ops):
+        sl = lib.as_slice(args[0])
+        items = sl.items()
+        if all((type(x) is int and x < 0x80) or (type(x) is Term and T.umax(x, x.w) < 0x80) for x in items):
+            return lib.ok(SliceRef(sl.c, sl.start, sl.len, True))
+        if all(type(x) is int for x in items):
+            try:
+                txt = bytes(items).decode('utf-8')
+            except UnicodeDecodeError:
+                return lib.err(I.mk(['Utf8Error'], 'opaque'))
+            buf = I.mk([ord(c) for c in txt], 'StrBuf')
+            return lib.ok(SliceRef(buf, 0, len(buf), True))
+        raise Unsupported('from_utf8 of symbolic non-ASCII bytes')
+
+    @reg(r'^core::num::<impl u8>::from_str_radix$', 'u8::from_str_radix')
+    def _from_str_radix(fr, name, args, ops):
+        items = str_items(args[0])
+        radix = args[1]
+        if radix != 16:
+            raise Unsupported('from_str_radix with radix %r' % (radix,))
+        vals = [T.trunc(32, 8, x) if type(x) is Term and x.w == 32 else x for x in items]
+        HEXV = [int(chr(i), 16) if chr(i) in '0123456789abcdefABCDEF' else 255 for i in range(256)]
+
+        def digit(c):
+            return T.select_const(HEXV, 8, T.zext(8, 64, c) if type(c) is Term else c, 64) if type(c) is Term else HEXV[c & 0xFF]
+        n = len(vals)
+        if n == 0:
+            return lib.err(I.mk(['ParseIntError::Empty'], 'opaque'))
+        if n > 3:
+            raise Unsupported('from_str_radix on more than 3 characters')
+        # documented semantics: optional leading '+', then one or more digits of the radix; overflow -> Err
+        plus = T.eq(8, vals[0], ord('+'))
+        ds = [digit(c) for c in vals]
+        isd = [T.ne(8, d, 255) for d in ds]
+
+        def value(dd):
+            acc = 0
+            for d in dd:
+                acc = T.add(16, T.mul(16, acc, 16), T.zext(8, 16, d) if type(d) is Term else d)
+            return acc
+        all_d = T.and_many(isd)
+        v_all = value(ds)
+        ok_all = T.land(all_d, T.ult(16, v_all, 256))
+        if n >= 2:
+            rest_d = T.and_many(isd[1:])
+            v_rest = value(ds[1:])
+            ok_plus = T.land(T.land(plus, rest_d), T.ult(16, v_rest, 256))
+        else:
+            ok_plus, v_rest = 0, 0
+        ok = T.lor(ok_all, ok_plus)
+        val = T.ite(8, ok_all, T.trunc(16, 8, v_all), T.trunc(16, 8, v_rest))
+        if type(ok) is int:
+            return lib.ok(val) if ok else lib.err(I.mk(['ParseIntError'], 'opaque'))
+        disc = T.zext(1, 64, T.lnot(ok))
+        return I.mk([disc, val], 'enum')
 
     @reg(r'^core::str::<impl str>::chars$', 'str::chars')
     def _chars(fr, name, args, ops):
